@@ -20,7 +20,7 @@ import (
 
 // TrackDef is one track of a synthetic playlist.
 type TrackDef struct {
-	Codec     string `json:"codec"` // h264 h265 av1 vp9 aac opus | ac3 (unsupported, fMP4) | tsopus (unsupported, MPEG-TS)
+	Codec     string `json:"codec"` // h264 h265 av1 vp9 aac opus | ac3 (unsupported, fMP4) | tsopus tsac3 tsmp4v tsmp1v tsh265 (unsupported, MPEG-TS)
 	TimeScale int    `json:"timescale"`
 	SampleDur int64  `json:"sample_dur"`         // ticks of the timescale (MPEG-TS: 90 kHz ticks)
 	StartOff  int64  `json:"start_off"`          // offset of the track's first sample from the stream base, in its ticks (may be negative)
@@ -196,6 +196,12 @@ func samplePayload(container string, t TrackDef, id int, sync bool) (payload []b
 	case "opus":
 		pkt := mux.OpusPacket(3, 1, m)
 		return pkt, [][]byte{pkt}
+	case "tsac3":
+		// a well-formed AC-3 sync frame: 48 kHz, frmsizecod 0 (128 bytes), bsid 8, 2/0 channels
+		f := make([]byte, 128)
+		copy(f, []byte{0x0b, 0x77, 0, 0, 0x00, 0x40, 0x40})
+		copy(f[8:], m)
+		return f, [][]byte{f}
 	default:
 		return m, [][]byte{m}
 	}
@@ -237,6 +243,14 @@ func buildPlaylist(def PlaylistDef, container, name string, base func(timescale 
 				tsTracks = append(tsTracks, &mpegts.Track{Codec: &mpegts.CodecMPEG4Audio{Config: mpeg4audio.Config{Type: 2, SampleRate: 44100, ChannelCount: 2}}})
 			case "tsopus":
 				tsTracks = append(tsTracks, &mpegts.Track{Codec: &mpegts.CodecOpus{ChannelCount: 2}})
+			case "tsac3":
+				tsTracks = append(tsTracks, &mpegts.Track{Codec: &mpegts.CodecAC3{SampleRate: 48000, ChannelCount: 2}})
+			case "tsmp4v":
+				tsTracks = append(tsTracks, &mpegts.Track{Codec: &mpegts.CodecMPEG4Video{}})
+			case "tsmp1v":
+				tsTracks = append(tsTracks, &mpegts.Track{Codec: &mpegts.CodecMPEG1Video{}})
+			case "tsh265":
+				tsTracks = append(tsTracks, &mpegts.Track{Codec: &mpegts.CodecH265{}})
 			default:
 				return nil, fmt.Errorf("codec %s not possible in MPEG-TS", t.Codec)
 			}
@@ -341,6 +355,14 @@ func buildPlaylist(def PlaylistDef, container, name string, base func(timescale 
 					err = tsw.WriteMPEG4Audio(tsTracks[u.ti], u.pts&0x1FFFFFFFF, u.data)
 				case "tsopus":
 					err = tsw.WriteOpus(tsTracks[u.ti], u.pts&0x1FFFFFFFF, [][]byte{mux.OpusPacket(3, 1, u.data[0])})
+				case "tsac3":
+					err = tsw.WriteAC3(tsTracks[u.ti], u.pts&0x1FFFFFFFF, u.data[0])
+				case "tsmp4v":
+					err = tsw.WriteMPEG4Video(tsTracks[u.ti], u.pts&0x1FFFFFFFF, u.data[0])
+				case "tsmp1v":
+					err = tsw.WriteMPEG1Video(tsTracks[u.ti], u.pts&0x1FFFFFFFF, u.data[0])
+				case "tsh265":
+					err = tsw.WriteH265(tsTracks[u.ti], u.pts&0x1FFFFFFFF, u.dts&0x1FFFFFFFF, u.data)
 				}
 				if err != nil {
 					return nil, err
